@@ -612,6 +612,10 @@ def solve_anchors(model, r):
     fn = model.own_method("System", "solve")
     if fn is None:
         raise AnalysisError("System.solve not found")
+    if "_solve_inlined" not in model.__dict__:
+        from .core import inline_nested_defs
+        model.__dict__["_solve_inlined"] = inline_nested_defs(fn)
+    fn = model.__dict__["_solve_inlined"]
     fn = sink_map_columns(model, fn, lambda l: isinstance(l, ast.For) and iter_is_role(l, r["TOPO"]))
     row = find_loop(fn, lambda l: isinstance(l, ast.For) and iter_is_role(l, r["TOPO"]), "row loop")
     chain = enclosing_chain(fn, row)
